@@ -35,6 +35,13 @@
       infinite bounds and bounds beyond the defaults.  Every document is first checked with libsbml (an invalid one is
       counted and skipped); the model read in both id modes is compared with the SPECIFICATION the text was printed from.
 
+Witness protocol: every failure carries "witness" (exact input) and "part".  FIXED, seed-independent inputs: the escaper
+enumeration (strings of the digit class up to length 4; the others up to 6 / 7), the models gen_io.build(family, "fixed", i) of
+FIXED_MODELS, the shipped files; witnesses `escaper(<pair>, '<id>')`, `<key>|<family>#<i>|<channel>|<id mode>`,
+`<key>|file:<name>|<channel>|<id mode>`; every distinct failing witness is reported.  SEEDED inputs: gen_io.cases(tier, seed) (all
+families), random escaper strings, the generated third-party documents; a member of an input class there has the witness
+"random:<class>", anything else its exact input (`<key>|<family>@<seed>#<i>|...`).
+
 Failure keys: one per root cause.  Differences are classified by `gen_io.diff_aspects` (a consequence of a reported cause is
 not reported again) and named "sbml:<aspect>"; the input classes of the defects found on the unchanged tree have their own
 keys (see NOTES_C10.md): sbml:id-digits-escape, sbml:bounds-above-default, sbml:group-gene-member, sbml:gene-empty-name,
@@ -271,7 +278,7 @@ def _aspect_key(aspect, oid, before, after, flags):
 
 def check_model(model, channels, modes, tmp, tag, idem_channel=None, validate=True, replay_base=None, case_id="?", seeded=False):
     """-> (n_checks, [failure dict]); replay_base: dict copied into every failure's replay; case_id names the input in the
-    witness `<key>|<case_id>|<channel>|<id mode>`; seeded: members of an input class get the witness "random:<class>""""
+    witness `<key>|<case_id>|<channel>|<id mode>`; seeded: members of an input class get the witness random:<class>"""
     import cobra
     fails = []
     n = 0
@@ -935,6 +942,9 @@ def run(tier: str, seed: int) -> dict:
             units.extend(("escapers", (ALPHA1, ln, [c])) for c in ALPHA1)
     for ln in range(1, 5):
         units.append(("escapers", (ALPHA2, ln, list(ALPHA2))))
+    units.append(("escapers_random", (seed, 6000 if thorough else 1500)))
+    fixed_cases = [(fam, "fixed", i) for fam, k in FIXED_MODELS.items() for i in range(k)]
+    units += [("models", (c, tier)) for c in _chunks(fixed_cases, 5)]
     cases = gen_io.cases(tier, seed)
     random.Random(seed).shuffle(cases)
     units += [("models", (c, tier)) for c in _chunks(cases, 6)]
@@ -970,22 +980,21 @@ def run(tier: str, seed: int) -> dict:
                 counts["files_skipped"][r["file"]] = r["status"]
     counts["files_checked"].sort()
     samples.sort(key=lambda s: (s["family"], s["index"]))
-    # one witness per key: the smallest (escapers: shortest id; models: lowest index)
+    # one failure per distinct witness; the fixed part is reported completely, the seeded part up to SEEDED_CAP per key
     per = {}
     for f in fails:
-        per[f["key"]] = per.get(f["key"], 0) + f.pop("count", 1)
-
-    def rank(f):
-        rp = f["replay"]
-        return (f["key"], ["escaper", "model", "thirdparty", "file"].index(rp["kind"]), len(rp.get("id", "")), rp.get("id", ""),
-                rp.get("index", 0), rp.get("family", ""), str(rp))
-    fails.sort(key=rank)
-    kept, seen = [], {}
-    for f in fails:                      # per key: the smallest escaper witness, the first model witness, the first file witness
-        k = (f["key"], f["replay"]["kind"])
-        seen[k] = seen.get(k, 0) + 1
-        if seen[k] <= 1:
-            kept.append(f)
+        per[f["key"]] = per.get(f["key"], 0) + 1
+    fails.sort(key=lambda f: (f["key"], f["part"] != "fixed", len(f["witness"]), f["witness"], str(f["replay"])))
+    kept, seen, n_seeded = [], set(), {}
+    for f in fails:
+        if f["witness"] in seen:
+            continue
+        if f["part"] != "fixed":
+            n_seeded[f["key"]] = n_seeded.get(f["key"], 0) + 1
+            if n_seeded[f["key"]] > SEEDED_CAP:
+                continue
+        seen.add(f["witness"])
+        kept.append(f)
     n_strings = sum(len(ALPHA1) ** k for k in range(1, L + 1)) + sum(len(ALPHA2) ** k for k in range(1, 5))
     return {
         "evaluations": counts["escaper_checks"] + counts["model_checks"] + counts["file_checks"] + counts["thirdparty_checks"],
@@ -997,7 +1006,8 @@ def run(tier: str, seed: int) -> dict:
                 "libsbml accepts, read in two id modes and compared with its specification",
         "bounds": {"escaper_alphabets": [ALPHA1, ALPHA2], "escaper_max_len": [L, 4], "families": {k: sum(1 for c in cases if c[0] == k)
                                                                                                for k in gen_io.FAMILIES},
-                   "thirdparty_dialects": DIALECTS, "thirdparty_documents_per_dialect": n_tp, "channels": CHANNELS, "id_modes": ["default", "f_replace={} (SId-safe families)"],
+                   "fixed_models": FIXED_MODELS, "fixed_digit_class_max_len": FIXED_DIGIT_LEN,
+                   "random_escaper_strings": 6000 if thorough else 1500, "thirdparty_dialects": DIALECTS, "thirdparty_documents_per_dialect": n_tp, "channels": CHANNELS, "id_modes": ["default", "f_replace={} (SId-safe families)"],
                    "max_metabolites": 4, "max_internal_reactions": 5, "failures_total": sum(per.values()),
                    "failures_per_key": per, "wall_s": round(time.time() - t0, 1)},
         "counts": counts,
